@@ -23,6 +23,7 @@ type Config struct {
 
 // Exec is one path execution (replay-based forking).
 type Exec struct {
+	sortMode int // 0 undecided, 1 stable, 2 equal elements reversed (sort.Slice is not stable by contract)
 	w         *World
 	prog      *ssa.Program
 	solver    *Solver
